@@ -420,14 +420,15 @@ example : serve [.mk 0 [] [.sub [.mk 0 [] [.fail 1 404] false] true [.mk 0 [] [.
 /-- an error route that answers with `"{http.error.status_code}"` (the usual `respond
     "{err.status_code}"`) sends the status of the error being handled … -/
 theorem respond_with_error_placeholder_sends_error_status (k : K) (r : Req) (t : Trace) (st : Nat)
-    (hr : ∀ s, r.ctxErr = some s → s ≠ 0 → r.replStatus = some s) (he : r.ctxErr = some st) (hne : st ≠ 0) :
+    (hr : ∀ s, r.ctxErr = some s → s ≠ 0 → r.replStatus = some s) (he : r.ctxErr = some st) (hne : st ≠ 0)
+    (h103 : st ≠ 103) :
     runHandler (.answer .errCode) k r t = .done t (some st) ∧
     runHandler (.answer .empty) k r t = .done t (some st) ∧
     runHandler (.raise .errCode) k r t = .err t st r := by
   have := hr st he hne
   refine ⟨?_, ?_, ?_⟩
-  · simp [runHandler, Src.resolve, this]
-  · simp [runHandler, answerDefault, he, hne]
+  · simp [runHandler, answerStep, Src.resolve, this, h103]
+  · simp [runHandler, answerStep, answerDefault, he, hne]
   · simp [runHandler, raiseStatus, Src.resolve, this]
 
 /-- … and outside the error path (no error yet) that same configuration is itself an error 500:
@@ -435,7 +436,16 @@ theorem respond_with_error_placeholder_sends_error_status (k : K) (r : Req) (t :
 theorem error_placeholder_outside_error_path (k : K) (r : Req) (t : Trace) (h : r.replStatus = none) :
     runHandler (.answer .errCode) k r t = .err t 500 r ∧
     runHandler (.raise .errCode) k r t = .err t 500 r := by
-  simp [runHandler, raiseStatus, Src.resolve, h]
+  simp [runHandler, answerStep, raiseStatus, Src.resolve, h]
+
+/-- `static_response` with 103 (Early Hints) writes the interim header and passes the request on:
+    it is a handler that BOTH writes and calls next — the rest of the chain runs as usual. -/
+theorem early_hints_pass_the_request_on (k : K) (r : Req) (t : Trace) :
+    runHandler (.answer (.lit 103)) k r t = k r (t ++ [hintEv]) := by
+  simp [runHandler, answerStep, Src.resolve]
+
+example : serve [.mk 0 [] [.answer (.lit 103), .pass 1, .answer (.lit 103), .respond 2 200] false] false [] wReq
+    = ⟨[hintEv, ⟨1, 1, none, none, 1⟩, hintEv, ⟨2, 1, none, none, 1⟩], some 200⟩ := by decide
 
 /-- the real `error` handler diverts exactly like a failing handler (it just leaves no probe event) -/
 theorem error_handler_diverts (n : Nat) (k : K) (r : Req) (t : Trace) :
